@@ -49,10 +49,26 @@ Theorem C05_failed_update_changes_nothing :
 Proof. exact failed_update_changes_nothing. Qed.
 Print Assumptions C05_failed_update_changes_nothing.
 
-Theorem C05_oracle_on_model_codec :
-  forall m, oracle (IWrite m) (model_obs (IWrite m)) = true.
-Proof. exact oracle_on_model_codec. Qed.
-Print Assumptions C05_oracle_on_model_codec.
+Theorem C05_no_live_unlink :
+  forall (sched : list step) (d0 : dir) (a : step),
+    Inv d0 -> step_actor a = Some APruner ->
+    let st := fold_left sys_step sched (sys_init d0) in
+    forall m h, disk_parsed (sy_dir st) m -> In h (names m) -> table_exists (sy_dir (sys_step st a)) h = true.
+Proof. exact no_live_unlink. Qed.
+Print Assumptions C05_no_live_unlink.
+
+Theorem C05_no_live_unlink_candidate :
+  forall st h arch sp rest keep,
+    SysInv st -> sy_p st = PLocked ((CTable h arch, sp) :: rest) keep ->
+    snd (fst (sys_step_r st PUnlink)) = r_ok ->
+    forall m, disk_parsed (sy_dir st) m -> ~ In h (names m).
+Proof. exact no_live_unlink_candidate. Qed.
+Print Assumptions C05_no_live_unlink_candidate.
+
+Theorem C05_oracle_on_model :
+  forall i, oracle i (model_obs i) = true.
+Proof. exact oracle_on_model. Qed.
+Print Assumptions C05_oracle_on_model.
 
 Theorem C05_consts_pinned :
   c05_storage_version = [53] /\ c05_storage_version4 = [52] /\ c05_prefix_len = 5 /\ c05_hash_string_len = 32
